@@ -342,6 +342,10 @@ func execFWD(a []sx) (out sx) {
 	for _, x := range w.writes {
 		rec.list = append(rec.list, H(x))
 	}
+	if w.failed {
+		// the destination did refuse a write and every call returned nil
+		return T("res", A("none"), I(int64(len(w.writes))), A("swallowed"), rec)
+	}
 	return T("res", A("none"), I(int64(len(w.writes))), A("true"), rec)
 }
 
